@@ -157,4 +157,18 @@ func c06Case(m *Model, v *Verdict, rng *RNG, et int32, l int) {
 	bit := uint(rng.Intn(7) + 1)
 	k2[rng.Intn(len(k2))] ^= 1 << bit
 	check("key-bitflip", k2, usage, ct, true, true)
+	// the same key buffer used and then changed in place: what is decided depends on the key bytes at the
+	// time of the call, not on what the buffer held at an earlier call
+	kb := append([]byte{}, key...)
+	check("original", kb, usage, ct, false, false)
+	kb[rng.Intn(len(kb))] ^= 1 << bit
+	check("key-changed-in-place", kb, usage, ct, false, true)
+	copy(kb, randKey(rng, et))
+	check("key-changed-in-place", kb, usage, ct, false, true)
+	copy(kb, key)
+	check("original", kb, usage, ct, false, false)
+	for i := range kb {
+		kb[i] = 0
+	}
+	check("key-changed-in-place", kb, usage, ct, false, true)
 }
